@@ -664,7 +664,17 @@ class Event:
         """
         try:
             request = cast(C_STORE, self.request)
-            stream = cast(BytesIO, request.DataSet).getvalue()
+            path = getattr(request, "_dataset_path", None)
+            if isinstance(path, Path):
+                # STORE_RECV_CHUNKED_DATASET: the dataset was written to file in
+                #   the DICOM File Format, skip the preamble, prefix and the
+                #   File Meta Information group (which starts with its length)
+                with open(path, "rb") as f:
+                    f.seek(132 + 8)
+                    f.seek(int.from_bytes(f.read(4), "little"), 1)
+                    stream = f.read()
+            else:
+                stream = cast(BytesIO, request.DataSet).getvalue()
         except AttributeError:
             raise AttributeError(
                 "The corresponding event is not a C-STORE request and has no "
